@@ -4,6 +4,7 @@ import asyncio
 import time
 from dataclasses import asdict, dataclass
 from enum import IntEnum
+from typing import Callable
 from wsgiref.handlers import format_date_time
 
 from repid._utils import FROZEN_DATACLASS, SLOTS_DATACLASS
@@ -37,7 +38,8 @@ class HealthCheckServer:
             self._server = await loop.create_server(
                 lambda: _HttpServerProtocol(
                     endpoint_name=self.server_settings.endpoint_name,
-                    status=self.health_status,
+                    # the status is looked up when a request arrives, not when the client connects
+                    status=lambda: self.health_status,
                 ),
                 host=self.server_settings.address,
                 port=self.server_settings.port,
@@ -63,10 +65,18 @@ class HealthCheckServer:
 
 
 class _HttpServerProtocol(asyncio.Protocol):
-    def __init__(self, endpoint_name: str, status: HealthCheckStatus) -> None:
+    def __init__(
+        self,
+        endpoint_name: str,
+        status: HealthCheckStatus | Callable[[], HealthCheckStatus],
+    ) -> None:
         super().__init__()
         self.endpoint_name = endpoint_name
-        self.status = status
+        self._status = status
+
+    @property
+    def status(self) -> HealthCheckStatus:
+        return self._status() if callable(self._status) else self._status
 
     def connection_made(self, transport: asyncio.BaseTransport) -> None:
         self.transport: asyncio.WriteTransport = transport  # type: ignore[assignment]
